@@ -738,3 +738,20 @@ Proof.
   intros [Hf Hc]%andb_prop. exists p, p'. split; [done|]. split; [done|]. intros md Hnp.
   apply (prints_admitted_all md txt p p' Hnp Hp Ha); [by apply in_fragment_b_sound|done].
 Qed.
+
+(* the first sentence of C04 for these programs: a terminating run's labels are printed by the reference
+   semantics, and every schedule terminates with the same multiset (C03, DeterminismAll.determinism_all) *)
+Theorem results_unique_admitted_all md txt p p' pick1 f1 t1 :
+  is_np md = false ->
+  parse_string txt = POk p -> typecheck p = Accept p' -> in_fragment p' -> single_decls p' = true ->
+  exec_run f1 pick1 md (p_types p') (p_funs p') (init_config p') = RQuiescent t1 ->
+  (exists C', sax_steps (p_funs p') true (sax_init p') (labels t1) C') /\
+  (forall pick2 f2, (f1 <= f2)%nat ->
+     exists t2, exec_run f2 pick2 md (p_types p') (p_funs p') (init_config p') = RQuiescent t2 /\ labels t2 ≡ₚ labels t1).
+Proof.
+  intros Hnp Hp Ha Hf Hsd Hrun. split.
+  - destruct (prints_admitted_all md txt p p' Hnp Hp Ha Hf Hsd f1 pick1) as [C' HC]. rewrite Hrun in HC. eauto.
+  - intros pick2 f2 Hle.
+    destruct (determinism_all txt p p' md pick1 pick2 f1 f2 t1 Hp Ha Hf (all_src_parsed txt p p' Hp Ha) Hnp Hrun Hle)
+      as (t2 & H2 & _ & Hperm). eauto.
+Qed.
